@@ -160,6 +160,51 @@ def kwargs_of(term, prefix="new:"):
     return a[1], out
 
 
+_INHERITED = set()
+
+
+def _inherited_solvers(run, M, tier):
+    """C14's anchors include sigpy/alg.py: "whatever the solver" holds only if each solver LinearLeastSquares routes to performs its documented
+    recursion with the arguments it is handed (the preconditioned CG step, the proximal-gradient and primal-dual updates), so the update rules of
+    C12 and C13 are evaluated here as well"""
+    if id(run) in _INHERITED:
+        return
+    _INHERITED.add(id(run))
+    from . import c12, c13
+    c12.check(run, M, tier)
+    c13.check(run, M, tier)
+
+
+def _l6(run, M):
+    """the default step sizes are 1/MaxEig(..): the power iteration behind MaxEig finds the top eigenvalue only from a start vector with a
+    component in the top eigenspace -- a random draw has one with probability 1, a fixed vector (ones, zeros, a basis vector) is an exact
+    eigenvector of a lower eigenvalue for whole families of operators (constants for finite differences, ...)"""
+    run.rule("L6", "MaxEig starts its power iteration from a random vector (util.randn over the operator's input shape), handed to PowerMethod as the iterate")
+    f = M.func("sigpy.app.MaxEig.__init__")
+    seen = []
+
+    def hook(vn, call, st):
+        tgt = M.resolve_call(f, call)
+        if tgt[0] == "class" and tgt[1].qual == "sigpy.alg.PowerMethod":
+            b = M.bind(call, M.method(tgt[1], "__init__"))
+            if "x" in b and not isinstance(b["x"], (list, dict)):
+                seen.append((call, vn.ev(b["x"], st), vn.ev(b["A"], st) if "A" in b and not isinstance(b["A"], (list, dict)) else None))
+            return T.sym("<PowerMethod>", real=True)
+        return None
+    outs = VN(M, f, call_hook=hook).run(f.body, State({p: T.sym(p) for p in f.params}))
+    ok = bool(seen)
+    why = "MaxEig.__init__ never builds a PowerMethod"
+    for call, xv, av in seen:
+        t = xv if isinstance(xv, T.Poly) else None
+        at = t.single_atom() if t is not None else None
+        shown = T.show(t, 200) if t is not None else repr(xv)[:100]
+        if at is None or at[0] != "app" or at[1] != "fn:sigpy.util.randn" or "attr:ishape(A)" not in shown:
+            ok = False
+            why = "MaxEig hands PowerMethod the start vector %s; expected util.randn(A.ishape, ...): from a fixed start vector the iteration can sit on an eigenvector of " \
+                  "a lower eigenvalue, and every default step size 1/MaxEig(..) is then too large" % shown
+    run.check(ok, "L6", "MaxEig start vector", f.loc(), "random start vector over A.ishape", why, stmt="L6")
+
+
 def check(run, M, tier):
     run.rule("L1", "solver selection and rejections of _get_alg; every set-up assigns self.alg built on self.x; _output returns self.x")
     run.rule("L2-CG", "CG receives A^H A + lamda I and A^H y + lamda z")
@@ -182,6 +227,8 @@ def check(run, M, tier):
                 if ("O",) and any(node_ is n2 for n2, _ in sm_.opaque_mut):
                     continue
                 run.bad("L5", f_.qual, f_.loc(node_), "%s modifies its argument `%s` in place (%s): the algorithm's iterate is overwritten" % (f_.qual, p_, why_), stmt=node_)
+    _l6(run, M)
+    _inherited_solvers(run, M, tier)
     alg = LinAlg(M)
     cls = M.cls(LLS)
     methods = {}
